@@ -83,3 +83,63 @@ package xdsresource
 //@       atLeast(matchType, matchLen, matchTypeForDomain(vHosts[v].Domains[d]), len(vHosts[v].Domains[d]))) })
 //@   loop 2 invariant forall(func(d int) bool { return implies(0 <= d && d <= rangeindex2 && d < len(vh.Domains) && matches(vh.Domains[d], host),
 //@       atLeast(matchType, matchLen, matchTypeForDomain(vh.Domains[d]), len(vh.Domains[d]))) })
+
+// ---- C45: invariants of an accepted ClusterLoadAssignment (EDS) -----------------------------------
+//
+// The arithmetic and uniqueness rules an accepted EndpointsUpdate satisfies,
+// proved for every input message (protobuf getters are pure field reads).
+
+//@ import math "math"
+//@ import v3typepb "github.com/envoyproxy/go-control-plane/envoy/type/v3"
+
+// Drop policy: the denominator is 100 / 10 000 / 1 000 000 exactly for the
+// three enum values and every other value is rejected; the numerator is copied.
+//@ func parseDropPolicy
+//@   prop C45
+//@   assert at return 1 result1 != nil
+//@   assert at return 2 result1 == nil && result0.Numerator == numerator && (result0.Denominator == 100 || result0.Denominator == 10000 || result0.Denominator == 1000000) && result0.Denominator == denominator
+
+// Endpoints of one locality: every accepted endpoint has weight >= 1 (1 when
+// unspecified), the running sum of the weights never exceeds MaxUint32 (it is
+// computed in 64 bits, so it cannot wrap before the test), and an address that
+// was seen before -- in this or an earlier locality -- rejects the resource.
+// builds a fresh map from the metadata proto; changes nothing that exists (not verified here)
+//@ func validateAndConstructMetadata
+//@   trusted
+
+//@ func parseEndpoints
+//@   prop C45
+//@   requires uniqueEndpointAddrs != nil
+//@   modifies uniqueEndpointAddrs[*]
+//@   loop 1 invariant totalWeight <= math.MaxUint32 && fresh(endpoints)
+//@   loop 2 invariant totalWeight <= math.MaxUint32 && fresh(endpoints) && fresh(addrs)
+//@   loop 2 invariant weight >= 1
+//@   loop 2 invariant Z(totalWeight) >= Z(weight)
+//@   loop 3 invariant totalWeight <= math.MaxUint32 && fresh(endpoints) && fresh(address)
+//@   loop 3 invariant weight >= 1
+//@   loop 3 invariant Z(totalWeight) >= Z(weight)
+//@   assert at return 1 result0 == nil && result1 != nil
+//@   assert at return 2 result0 == nil && result1 != nil && totalWeight > math.MaxUint32
+//@   assert at return 3 result0 == nil && result1 != nil && uniqueEndpointAddrs[a]
+//@   assert at call append#3 weight >= 1 && totalWeight <= math.MaxUint32 && Z(totalWeight) >= Z(weight) && sameslice(arg0, endpoints)
+//@   assert at return 5 result1 == nil && totalWeight <= math.MaxUint32
+
+// The whole resource: localities without an id are rejected, localities with
+// weight 0 are skipped; for every other locality the sum of the locality weights
+// at its priority (kept in 64 bits) does not exceed MaxUint32 once it is
+// accepted; a (locality, priority) pair seen before rejects the resource; and an
+// accepted resource's priorities are exactly 0..n-1 (every j below the number of
+// distinct priorities is present).
+//@ func parseEDSRespProto
+//@   prop C45
+//@   requires m != nil
+//@   loop 1 invariant true
+//@   loop 2 invariant priorities != nil && sumOfWeights != nil && uniqueEndpointAddrs != nil
+//@   loop 2 invariant forallk(func(k uint32) bool { return sumOfWeights[k] <= math.MaxUint32 })
+//@   loop 3 invariant 0 <= i && forallk(func(k uint32) bool { return implies(int(k) < i, haskey(priorities, k)) })
+//@   loop 3 exit i >= len(priorities) && forallk(func(k uint32) bool { return implies(int(k) < len(priorities), haskey(priorities, k)) })
+//@   assert at call LocalityString#1 weight > 0 && l != nil
+//@   assert at call LocalityString#1 sumOfWeights[priority] <= math.MaxUint32
+//@   assert at call LocalityString#1 Z(sumOfWeights[priority]) >= Z(weight)
+//@   assert at call parseEndpoints#1 samemap(arg1, uniqueEndpointAddrs) && localitiesWithPriority[lidStr] && haskey(priorities, priority)
+//@   assert at call append#2 weight > 0 && err == nil
